@@ -329,9 +329,17 @@ def finish(report: Report, t0: float, explanation: str, extra_assumptions=(), ex
     ev_dir = os.path.join(VERIF_DIR, "evidence")
     os.makedirs(ev_dir, exist_ok=True)
     rc = 0
+    rp_dir = os.path.join(ev_dir, "replay")
+    if os.path.isdir(rp_dir):
+        # replay files of earlier runs of this property are stale
+        for fn_ in os.listdir(rp_dir):
+            if fn_.startswith(prop + "-") and fn_.endswith(".json"):
+                try:
+                    os.remove(os.path.join(rp_dir, fn_))
+                except OSError:
+                    pass
     if new:
         rc = 1
-        rp_dir = os.path.join(ev_dir, "replay")
         os.makedirs(rp_dir, exist_ok=True)
         for i, f in enumerate(new):
             rp = os.path.join(rp_dir, f"{prop}-{i}.json")
